@@ -83,10 +83,14 @@ def units(ctx, which):
         for prob in ("mono", "front", "wave"):
             for spec in ([("comp", 2), ("theta", 60), ("theta", 120)] if (d == 1 or ctx.thorough) else [("comp", 2)]):
                 us.append(("adref", which, d, depth_max, prob, spec, 0.1, 40 if d == 1 else 14))
-    if which == "C03":
-        for K in (3, 4):
-            for part in range(8 if ctx.thorough else 4):
-                us.append(("auer_het", K, part, 8 if ctx.thorough else 4, ctx.seed, ctx.thorough))
+    for K in (3, 4):
+        for part in range(8 if ctx.thorough else 4):
+            us.append(("auer_het", K, part, 8 if ctx.thorough else 4, ctx.seed, ctx.thorough, which))
+    n_iv = len(INTERVALS) if ctx.thorough else 5
+    for alg, spec in ([("EpsilonPAL", None)] + ([("VOGP", ("comp", 2)), ("VOGP", ("theta", 60)), ("PaVeBaGP-IH", ("comp", 2))] if ctx.thorough else [("VOGP", ("theta", 60))])):
+        for first in range(n_iv * n_iv):
+            if ctx.thorough or alg == "EpsilonPAL" or first % 3 == ctx.seed % 3:
+                us.append(("os3", which, alg, spec, first, ctx.seed, ctx.thorough))
     return us
 
 
@@ -228,6 +232,49 @@ def run_os(unit, res, only=None):
 
 
 # ---------------------------------------------------------------------------------------------
+# three designs with clearly different widths: rectangles = products of intervals from a small
+# interval alphabet (wide / tight / tiny / shifted), all three in S (thorough: also one in P)
+
+# chosen with the reference-level vacuity probe of DESIGN 2.7: the first four already contain 162 triples on
+# which "P-entry against the pre-discarding active set" differs from the reference (a family without
+# the wide interval [0,3] contains none)
+INTERVALS = [(0.0, 1.0), (0.5, 0.55), (0.0, 3.0), (0.5, 1.0), (1.0, 2.0), (0.25, 1.0)]
+
+
+def run_os3(unit, res, only=None):
+    _, which, alg_name, spec, first, seed, thorough = unit
+    core.import_vopy()
+    m = 2
+    eps = 0.6
+    ivs = INTERVALS if thorough else INTERVALS[:5]
+    rects = [("rect", np.array([a[0], b[0]]), np.array([a[1], b[1]])) for a in ivs for b in ivs]
+    off = lattice.offset_for(seed, m, 1.0)
+    rects = [embed(t, 1.0, off) for t in rects]
+    tmpl = stepmc.build_template(alg_name, spec, 3, m, eps)
+    combos = [("S", "S", "S")] + ([("S", "S", "P")] if thorough else [])
+    nv = 0
+    n = 0
+    for combo in combos:
+        for i2 in range(len(rects)):
+            for i3 in range(len(rects)):
+                ridx = (first, i2, i3)
+                if only is not None and (list(combo), list(ridx)) != only:
+                    continue
+                n += 1
+                case = {"mode": "os3", "unit": list(unit), "combo": list(combo), "ridx": list(ridx)}
+                vs = step_case(tmpl, alg_name, spec, m, eps, combo, [rects[i] for i in ridx], which, res, case)
+                vs = [v for v in vs if v["property"] == which]
+                if vs:
+                    res["violations"].extend(vs[:2])
+                    nv += 1
+                    if nv >= 3:
+                        res["states"] += n
+                        return
+    res["states"] += n
+    res["samples"].append({"alg": alg_name, "cone": _cn(spec, m), "K": 3, "eps": eps, "interval_alphabet": [list(i) for i in ivs], "first_rectangle": first, "triples": n})
+
+
+# ---------------------------------------------------------------------------------------------
 # heteroscedastic Auer (C03): per-design widths differ, a middle design is discarded in the round
 
 
@@ -247,7 +294,8 @@ def auer_het_cases(K, thorough):
 
 
 def run_auer_het(unit, res, only=None):
-    _, K, part, nparts, seed, thorough = unit
+    _, K, part, nparts, seed, thorough = unit[:6]
+    which = unit[6] if len(unit) > 6 else "C03"
     core.import_vopy()
     eps = 0.3
     tmpl = stepmc.build_template("Auer", None, K, 2, eps, delta=0.1, noise_var=1.0, contraction=1.0, use_empirical_beta=True)
@@ -280,6 +328,23 @@ def run_auer_het(unit, res, only=None):
         res["outcomes"].append(f"auerhet|{sorted(ref['D_obs'])}|{sorted(after['P'])}")
         if len(set(hw)) > 1 and ref["D_obs"]:
             core.bump(res, "het_with_discard")
+        if which == "C02":
+            for i, (want, got) in ref["discard"].items():
+                if want == 0:
+                    res["boundary_skipped"] += 1
+                    continue
+                res["nontrivial"] += 1
+                core.bump(res, "auer_het_discard_yes" if want > 0 else "auer_het_discard_no")
+                if (want > 0) != bool(got):
+                    res["violations"].append(core.violation(
+                        "C02", {"kind": "elimination", "alg": "Auer-empirical"}, case, want > 0, bool(got),
+                        f"Auer(empirical beta) K={K}: design {i} elimination reference {want > 0} (each design's own displayed width) but real step {bool(got)}; centres="
+                        f"{[grid[c].tolist() for c in cidx]} variances={list(vs)} widths={hw} S'={sorted(after['S'])} P'={sorted(after['P'])}"))
+                    nv += 1
+                    break
+            if nv >= 3:
+                break
+            continue
         for i, (want, got) in ref["pareto"].items():
             if want == 0:
                 res["boundary_skipped"] += 1
@@ -377,6 +442,8 @@ def run_unit(unit):
         run_os(unit, res)
     elif unit[0] == "adref":
         run_adref(unit, res)
+    elif unit[0] == "os3":
+        run_os3(unit, res)
     else:
         run_auer_het(unit, res)
     return res
@@ -392,7 +459,12 @@ def _fix(u):
 def replay_case(case):
     res = core.new_result()
     u = _fix(case["unit"])
-    if case["mode"] == "adref":
+    if case["mode"] == "os3":
+        uu = list(case["unit"])
+        if uu[3] is not None:
+            uu[3] = tuple(tuple(tuple(r) for r in x) if isinstance(x, list) else x for x in uu[3])
+        run_os3(tuple(uu), res, only=(list(case["combo"]), list(case["ridx"])))
+    elif case["mode"] == "adref":
         uu = list(case["unit"])
         uu[5] = tuple(tuple(tuple(r) for r in x) if isinstance(x, list) else x for x in uu[5])
         run_adref(tuple(uu), res, replay=case["path"])
